@@ -679,3 +679,56 @@ pub fn restyle_globals(src: &str, style: &str) -> Option<(String, Vec<(String, S
     }
     Some((rename_idents(src, &map), map))
 }
+
+/// Normalised tokens of the top-level items selected by `keep(kind, name)`; kind is one of struct, const, fn, mod,
+/// impl (name = self type), trait, use, other.
+pub fn items_tokens(text: &str, keep: &dyn Fn(&str, &str) -> bool) -> Result<Vec<String>, String> {
+    use quote::ToTokens;
+    let file = syn::parse_file(text).map_err(|e| e.to_string())?;
+    let mut ts = proc_macro2::TokenStream::new();
+    for item in &file.items {
+        let (kind, name) = match item {
+            syn::Item::Struct(s) => ("struct", s.ident.to_string()),
+            syn::Item::Const(c) => ("const", c.ident.to_string()),
+            syn::Item::Fn(f) => ("fn", f.sig.ident.to_string()),
+            syn::Item::Mod(m) => ("mod", m.ident.to_string()),
+            syn::Item::Impl(i) => ("impl", i.self_ty.to_token_stream().to_string().replace(' ', "")),
+            syn::Item::Trait(t) => ("trait", t.ident.to_string()),
+            syn::Item::Use(_) => ("use", String::new()),
+            _ => ("other", String::new()),
+        };
+        if keep(kind, &name) {
+            item.to_tokens(&mut ts);
+        }
+    }
+    norm_tokens(&ts.to_string())
+}
+
+/// The part of the output selected by `keep` must not depend on the write options: the same source under two other
+/// option sets (where generation succeeds) must give token-identical items.
+pub fn option_leg(rep: &mut Report, key: &str, src: &str, base: &Config, base_text: &str, what: &str, keep: &dyn Fn(&str, &str) -> bool) {
+    let reference = match items_tokens(base_text, keep) {
+        Ok(t) => t,
+        Err(_) => return,
+    };
+    let alts = [
+        Config { bytemuck_vertex: true, bytemuck_host: true, encase: true, serde: true, repr: Repr::Glam, validate: Validate::All, ..Config::default() },
+        Config { serde: true, encase: true, repr: Repr::Nalgebra, ..Config::default() },
+    ];
+    for alt in alts {
+        if alt == *base {
+            continue;
+        }
+        rep.evaluations += 1;
+        if let Outcome::Ok(t) = generate(src, &alt) {
+            match items_tokens(&t, keep) {
+                Ok(x) if x == reference => {}
+                Ok(x) => {
+                    let pos = x.iter().zip(reference.iter()).position(|(a, b)| a != b).unwrap_or(x.len().min(reference.len()));
+                    rep.violation(format!("{key}|options={}", alt.key()), format!("{what} differ between two option sets (token #{pos}: `{}` vs `{}`)", reference.get(pos).cloned().unwrap_or_default(), x.get(pos).cloned().unwrap_or_default()), serde_json::json!({"wgsl": src, "config": alt.key(), "base": base.key()}));
+                }
+                Err(e) => rep.violation(format!("{key}|options={}", alt.key()), format!("output under another option set is not Rust: {e}"), serde_json::json!({"wgsl": src, "config": alt.key()})),
+            }
+        }
+    }
+}
